@@ -293,6 +293,9 @@ class FWStub:
         self.x_best = Vec("x_best")
         self.fun_best = SF.fresh("fun_best", finite=True)
         self.cub_best, self.ceq_best = Vec("cub"), Vec("ceq")
+        self._merits = {}
+        self.centre_ok = z3.BoolVal(True)
+        self.models.fw = self
         self._fresh_state()
 
     def _fresh_state(self, keep_resolution=False):
@@ -318,9 +321,13 @@ class FWStub:
         return self._res
 
     def shift_x_base(self, options): pass
-    def get_trust_region_step(self, options): return Vec("normal"), Vec("tangential")
+
+    def get_trust_region_step(self, options):
+        self._needs_centre("get_trust_region_step")
+        return Vec("normal"), Vec("tangential")
 
     def get_index_to_remove(self, x_new=None):
+        self._needs_centre("get_index_to_remove")
         # contract proved by framework.get_index_to_remove: with a new point the best index is never returned; without one it is
         # returned only together with distance 0
         if self.c.choose("get_index_to_remove", 2, ["ok", "linalg"]):
@@ -346,7 +353,10 @@ class FWStub:
         self._best = None
 
     def increase_penalty(self, step):
+        self._needs_centre("increase_penalty")
         self._best_may_change()
+        self._merits.clear()          # the merit values depend on the penalty; the method re-chooses the centre itself
+        self._new_centre()
         old = self.penalty
         self.penalty = SF.fresh("penalty", nonan=True)
         self.c.assume(self.penalty.r >= old.r)
@@ -359,11 +369,54 @@ class FWStub:
         if missing:
             # contract of TrustRegion.merit (unit framework.merit): without values it makes one evaluation of the problem, outside _eval
             self.pb.nev = self.pb.nev + 1
-        return SF.fresh("merit", finite=True)
+            return SF.fresh("merit", finite=True)
+        # merit is a function of the values it is given (and of the penalty in force): same value objects, same merit
+        key = (id(fun_val), id(cub_val), id(ceq_val))
+        if key not in self._merits:
+            self._merits[key] = (SF.fresh("merit", finite=True), fun_val, cub_val, ceq_val)
+        return self._merits[key][0]
+
+    # ---- ghost: is the centre of the trust region (best_index) the interpolation point of least merit? ------------------------------
+    def _new_centre(self):
+        """contract of set_best_index: the centre is re-chosen (arg-min of the merit function, ties to the smaller violation); the
+        best values are those of the new centre"""
+        self.centre_ok = z3.BoolVal(True)
+        self.x_best = Vec("x_best")
+        self.fun_best = SF.fresh("fun_best", finite=True)
+        self.cub_best, self.ceq_best = Vec("cub"), Vec("ceq")
+
+    def _point_replaced(self, fun_val, cub_val, ceq_val):
+        """an interpolation point received new values: the centre remains the least-merit point only if the newcomer's merit value
+        is known to be strictly larger than the centre's (a tie has to be re-resolved by set_best_index)"""
+        kn = (id(fun_val), id(cub_val), id(ceq_val))
+        kb = (id(self.fun_best), id(self.cub_best), id(self.ceq_best))
+        self._replaced.append((kn, kb, fun_val, cub_val, ceq_val, self.fun_best, self.cub_best, self.ceq_best))     # keep the objects alive
+
+    @property
+    def centre_ok(self):
+        """evaluated when needed: the merit values may be computed after the replacement"""
+        ok = []
+        for kn, kb, *_ in self._replaced:
+            if kn in self._merits and kb in self._merits:
+                ok.append(self._merits[kn][0].r > self._merits[kb][0].r)
+            else:
+                return z3.BoolVal(False)
+        return z3.And(*ok) if ok else z3.BoolVal(True)
+
+    @centre_ok.setter
+    def centre_ok(self, v):
+        self._replaced = []
+
+    def _needs_centre(self, what):
+        self.c.oblige("C18.minimize.centre_is_the_least_merit_point_when_used[" + what + "]", self.centre_ok, props=["C18"],
+                      note="an interpolation point was replaced and the centre of the trust region was not re-chosen (set_best_index) "
+                           "before the framework used it again")
 
     def get_second_order_correction_step(self, step, options): return Vec("soc")
     def get_reduction_ratio(self, step, f, cub, ceq): return SF.fresh("ratio", finite=True)
-    def set_best_index(self): self._best_may_change()
+    def set_best_index(self):
+        self._best_may_change()
+        self._new_centre()
     def set_multipliers(self, x): pass
 
     def update_radius(self, step, ratio):        # contract C18.update_radius
@@ -382,6 +435,8 @@ class FWStub:
 
     def decrease_penalty(self):
         self._best_may_change()
+        self._merits.clear()
+        self._new_centre()
         old = self.penalty
         self.penalty = SF.fresh("penalty", nonan=True)
         self.c.assume(z3.And(self.penalty.r >= 0, self.penalty.r <= old.r))
@@ -409,6 +464,8 @@ class ModelsStub:
     def update_interpolation(self, k_new, x_new, fun_val, cub_val, ceq_val):
         if self.c.choose("update_interpolation", 2, ["ok", "linalg"]):
             raise np.linalg.LinAlgError
+        if getattr(self, "fw", None) is not None:
+            self.fw._point_replaced(fun_val, cub_val, ceq_val)
         return SB(z3.Bool(self.c.fresh_name("ill_conditioned")))
 
     def fun_grad(self, x): return Vec("grad")
@@ -441,6 +498,7 @@ class MainLoop(LoopSpec):
             ("success_false_at_head", z3.BoolVal(env["success"] is False)),
             ("no_pending_request", z3.BoolVal(pb.trigger is None)),
             ("counters", z3.And(*[it(env[k]) >= 0 for k in ("n_short_steps", "n_very_short_steps", "n_alt_models")])),
+            ("centre_is_the_least_merit_point", fw.centre_ok),
         ]
         return out
 
@@ -456,6 +514,8 @@ class MainLoop(LoopSpec):
         fw._fresh_state()
         fw._best_may_change()
         fw._last_removal = None
+        fw._merits.clear()
+        fw._new_centre()
         out = {k: SI(z3.Int(c.fresh_name(k))) for k in ("n_iter", "n_short_steps", "n_very_short_steps", "n_alt_models")}
         # k_new is None before the first assignment and an index afterwards
         out["k_new"] = None if c.choose("k_new_unset", 2, ["set", "unset"]) else SI(z3.Int(c.fresh_name("k_new")))
